@@ -1,9 +1,116 @@
-"""C13 In-states are isolated copies; only commits change the global state (run part; statesim adds histories)."""
-from .runprops import make
+"""C13 In-states are isolated copies; only commits change the global state (statesim histories + run part)."""
+import json
+import os
+import random
+
+from . import common
+from .. import statesim
+from ..driver import derive_seed
 from ..monitors.isolation import Isolation
 
-make(globals(), "C13", [Isolation],
-     rule=("run part: seeded whole runs; before every commit the global state equals the snapshot taken after the "
-           "previous commit, every extracted branch has the node, its ancestors and all descendants with current "
-           "values, the active part equals the independent-active rule; non-trivial = >= 50 events"),
-     nontrivial=lambda r: r.events >= 50 and r.probes.get("c13_extractions_checked", 0) > 50)
+ID = "C13"
+LEVEL = "exploration"
+BUDGET = {"quick": {"wall": 80, "task_timeout": 300}, "thorough": {"wall": 900, "task_timeout": 900}}
+RUNS = {"quick": 64, "thorough": 1200}
+EVENTS = {"quick": 1500, "thorough": 4000}
+BATCHES = {"quick": 32, "thorough": 640}
+PER_BATCH = {"quick": 60, "thorough": 150}
+RULE = ("(1) statesim: seeded histories of extract / mutate (position, velocity, time stamp in place and by "
+        "replacement, start, stop, aliasing of velocity and time-stamp objects between units) / insert / drop / "
+        "extract-active / extract-global by 2-5 interleaved clients on the real TreeStateHandler with 1-2 levels, 1-6 "
+        "roots, 1-4 children, against a copy-on-extract reference model, all invariants after every operation; (2) "
+        "run part: whole runs with the snapshot oracle before every commit and shape/value checks of every extracted "
+        "branch; non-trivial = history with >= 5 inserts, or run with >= 50 events")
+ASSUMPTIONS = ["a branch is never mutated after it has been inserted (the property speaks about the time before)",
+               "the active-part oracle is evaluated only while roots carry a velocity exactly when a member does"]
+REAL_CODE = "TreeStateHandler, TreePhysicalState, TreeLiftingState, Node, Unit, Time; in the run part everything"
+STUBBED = "statesim clients stand in for event handlers (they only hold, mutate and insert branches)"
+DISTINCT_MEASURE = "distinct history seeds / 4-grams of event kinds in runs"
+
+
+def plan(tier, master_seed):
+    tasks = common.plan_runs(ID, tier, master_seed, RUNS, events=EVENTS)
+    for index in range(BATCHES[tier]):
+        tasks.append({"engine": "statesim", "index": 10 ** 6 + index,
+                      "rng_seed": derive_seed(master_seed, ID + "state", index), "histories": PER_BATCH[tier]})
+    return tasks
+
+
+def execute(task, package_dir):
+    if task.get("engine") == "runsim":
+        out = common.execute_runsim(task, package_dir, [Isolation], ID,
+                                    lambda r: r.events >= 50 and r.probes.get("c13_extractions_checked", 0) > 50)
+        out["nontrivial_count"] = 1 if out.get("nontrivial") else 0
+        out["evaluations"] = 1
+        return out
+    summary = {"status": "ok", "violations": [], "probes": {}, "faults": {}, "distinct": [], "events": 0}
+    stats = {}
+    if "history" in task:
+        cases = [(task["history"]["header"], task["history"]["ops"])]
+    else:
+        rng = random.Random(task["rng_seed"])
+        cases = [statesim.generate(random.Random(rng.getrandbits(48)), rng.randint(20, 250))
+                 for _ in range(task["histories"])]
+    nontrivial = 0
+    sample = None
+    for header, ops in cases:
+        before = stats.get("insert", 0)
+        try:
+            statesim.run_history(header, ops, stats)
+        except statesim.Failure as failure:
+            summary["violations"].append({"property": ID, "oracle": failure.oracle, "step": failure.index,
+                                          "detail": dict(failure.detail, header=header)})
+            summary["status"] = "violation"
+            summary["resolved_task"] = dict(task, history={"header": header, "ops": ops[:failure.index + 1]})
+            break
+        except Exception as exc:
+            import traceback
+            tb = traceback.extract_tb(exc.__traceback__)
+            here = os.path.dirname(os.path.dirname(os.path.abspath(__file__)))
+            if tb and os.path.abspath(tb[-1].filename).startswith(here):
+                raise
+            summary["violations"].append({"property": ID, "oracle": "crash", "step": 0, "detail": {
+                "traceback": "".join(traceback.format_exception(type(exc), exc, exc.__traceback__))[-2000:]}})
+            summary["status"] = "violation"
+            summary["resolved_task"] = dict(task, history={"header": header, "ops": ops})
+            break
+        if stats.get("insert", 0) - before >= 5:
+            nontrivial += 1
+        if sample is None:
+            sample = {"header": header, "history_prefix": ops[:10], "operations": len(ops)}
+    from ..runsim import reset_globals
+    reset_globals()
+    summary["probes"] = {"statesim_" + k: v for k, v in stats.items()}
+    summary["events"] = 0
+    summary["nontrivial"] = nontrivial >= 1
+    summary["nontrivial_count"] = nontrivial
+    summary["evaluations"] = len(cases)
+    summary["distinct"] = ["h%d/%d" % (task.get("rng_seed", 0), i) for i in range(len(cases))]
+    summary["sample"] = sample
+    return summary
+
+
+def distinct_nontrivial(summaries):
+    return sum(s.get("nontrivial_count", 0) for s in summaries)
+
+
+def extra_coverage(summaries):
+    return {"evaluations": sum(s.get("evaluations", 0) for s in summaries)}
+
+
+def shrink_candidates(task, violation):
+    history = task.get("history")
+    if not history:
+        from ..driver import default_shrink_candidates
+        for t in default_shrink_candidates(task, violation):
+            yield t
+        return
+    ops = history["ops"]
+    n = len(ops)
+    for chunks in (2, 4, 8, 16):
+        size = max(1, n // chunks)
+        for start in range(0, n - 1, size):
+            t = json.loads(json.dumps(task))
+            t["history"]["ops"] = ops[:start] + ops[start + size:]
+            if len(t["history"]["ops"]) < n:
+                yield t
